@@ -7,13 +7,18 @@ import Dmn.Lemmas.PlaneHorz
 namespace Dmn.Recog
 open Outcome (ok error)
 
+@[simp] theorem length_valuesFrom : ∀ (vs : List (Option Text)) (bs : List Text),
+    (valuesFrom vs bs).length = vs.length
+  | [], _ => rfl
+  | _ :: vs, bs => by simp [valuesFrom, length_valuesFrom vs bs.tail]
+
 section Rows
 variable (ids : Ids) (d : Decor) (t : TableSpec)
 
 theorem len_exprs : t.exprs.length = t.inputs.length := by simp [TableSpec.exprs]
-theorem len_ivals : t.ivals.length = t.inputs.length := by simp [TableSpec.ivals]
+theorem len_ivals : (t.ivals d).length = t.inputs.length := by simp [TableSpec.ivals, length_valuesFrom]
 theorem len_names : t.names.length = t.outputs.length := by simp [TableSpec.names]
-theorem len_ovals : t.ovals.length = t.outputs.length := by simp [TableSpec.ovals]
+theorem len_ovals : (t.ovals d).length = t.outputs.length := by simp [TableSpec.ovals, length_valuesFrom]
 
 theorem labelRow_in {x : Nat} (hx : x < t.exprs.length) :
     (labelRow ids t)[x]? = some (.region (ids.expr x) t.exprs[x]) := by
@@ -25,8 +30,8 @@ theorem nameRow_in {x : Nat} (hx : x < t.exprs.length) :
   unfold nameRow
   rw [mkRow_in _ _ _ _ _ (by simpa using hx), getElem?_regsFrom_lt _ _ _ _ hx, Nat.zero_add]
 
-theorem valuesRow_in {x : Nat} (hx : x < t.ivals.length) :
-    (valuesRow ids d t)[x]? = some (.region (ids.inVal x) t.ivals[x]) := by
+theorem valuesRow_in {x : Nat} (hx : x < (t.ivals d).length) :
+    (valuesRow ids d t)[x]? = some (.region (ids.inVal x) (t.ivals d)[x]) := by
   unfold valuesRow
   rw [mkRow_in _ _ _ _ _ (by simpa using hx), getElem?_regsFrom_lt _ _ _ _ hx, Nat.zero_add]
 
@@ -58,11 +63,11 @@ theorem nameRow_out_multi (hm : t.outputs.length ≠ 1) {j : Nat} (hj : j < t.na
   rw [length_regsFrom, len_exprs] at this
   rw [this, getElem?_regsFrom_lt _ _ _ _ hj, Nat.zero_add]
 
-theorem valuesRow_out {j : Nat} (hj : j < t.ovals.length) :
-    (valuesRow ids d t)[t.inputs.length + 1 + j]? = some (.region (ids.outVal j) t.ovals[j]) := by
+theorem valuesRow_out {j : Nat} (hj : j < (t.ovals d).length) :
+    (valuesRow ids d t)[t.inputs.length + 1 + j]? = some (.region (ids.outVal j) (t.ovals d)[j]) := by
   unfold valuesRow
-  have := mkRow_out t.annotations.length (regsFrom ids.inVal 0 t.ivals)
-    (regsFrom ids.outVal 0 t.ovals)
+  have := mkRow_out t.annotations.length (regsFrom ids.inVal 0 (t.ivals d))
+    (regsFrom ids.outVal 0 (t.ovals d))
     (if d.split then regsFrom ids.annBlank 0 d.annBlanks else regsFrom ids.ann 0 t.annotations) j
     (by simpa using hj)
   rw [length_regsFrom, len_ivals] at this
@@ -195,15 +200,15 @@ section Cases
 variable (ids : Ids) (d : Decor) (t : TableSpec) (nm : Option Text) (hw : t.Wf) (hids : ids.Ok t.inputs.length t.outputs.length)
 include hw hids
 
-theorem horz_bodyH : recognizeHorizontal ⟨nm, bodyH ids d t⟩ = ok (horzOf t) := by
+theorem horz_bodyH : recognizeHorizontal ⟨nm, bodyH ids d t⟩ = ok (horzOf d t) := by
   have hP : (⟨nm, bodyH ids d t⟩ : Plane) = bodyOver ids t (headerOf ids d t) nm := rfl
   rw [hP]
   have hn := hw.inputs_pos
   have hm := hw.outputs_pos
   obtain ⟨n', hn'⟩ : ∃ n', t.inputs.length = n' + 1 := ⟨t.inputs.length - 1, by omega⟩
   have hx0 : 0 < t.exprs.length := by rw [len_exprs]; exact hn
-  have hv0 : 0 < t.ivals.length := by rw [len_ivals]; exact hn
-  apply recognizeHorizontal_bodyOver nm hw (headerOk ids d t)
+  have hv0 : 0 < (t.ivals d).length := by rw [len_ivals]; exact hn
+  apply recognizeHorizontal_bodyOver d nm hw (headerOk ids d t)
   · -- are input values present?
     cases hL : t.hasLabelRow <;> cases hV : t.hasValues
     · have hhdr : headerOf ids d t = [nameRow ids t] := by simp [headerOf, hL, hV]
@@ -255,7 +260,7 @@ theorem horz_bodyH : recognizeHorizontal ⟨nm, bodyH ids d t⟩ = ok (horzOf t)
         intro x hx
         have hx' : x < t.exprs.length := by
           rw [len_exprs]; simp [List.mem_range'] at hx; omega
-        have hx'' : x < t.ivals.length := by rw [len_ivals, ← len_exprs]; exact hx'
+        have hx'' : x < (t.ivals d).length := by rw [len_ivals, ← len_exprs]; exact hx'
         have e := uniqueRegions_col2 (regionNumber_eq r1 (nameRow_in ids t hx'))
           (regionNumber_eq r2 (valuesRow_in ids d t hx''))
         have hne : decide (ids.expr x ≠ ids.inVal x) = true := by simpa using hids.expr_inVal x (by rw [← len_exprs]; exact hx')
@@ -271,7 +276,7 @@ theorem horz_bodyH : recognizeHorizontal ⟨nm, bodyH ids d t⟩ = ok (horzOf t)
         some (valuesRow ids d t) := by
       rw [bodyOver_hdr _ _ _ _ (by simp [headerOf, hV])]
       cases hL : t.hasLabelRow <;> simp [headerOf, hL, hV]
-    apply rowTexts_ok t.ivals (fun j => ids.inVal j) hrow (by simp [len_ivals])
+    apply rowTexts_ok (t.ivals d) (fun j => ids.inVal j) hrow (by simp [len_ivals])
     intro j hj
     rw [Nat.zero_add]
     exact valuesRow_in ids d t hj
@@ -300,7 +305,7 @@ theorem horz_bodyH : recognizeHorizontal ⟨nm, bodyH ids d t⟩ = ok (horzOf t)
         rw [bodyOver_hdr _ _ _ _ (by simp)]; rfl
       have r1 : (bodyOver ids t [nameRow ids t, valuesRow ids d t] nm).rows[0 + 1]? = some (valuesRow ids d t) := by
         rw [bodyOver_hdr _ _ _ _ (by simp)]; rfl
-      have ho0 : 0 < t.ovals.length := by rw [len_ovals]; exact hm
+      have ho0 : 0 < (t.ovals d).length := by rw [len_ovals]; exact hm
       by_cases hm1 : t.outputs.length = 1
       · rw [outputHeader_single hm1]
         have hl := Wf.label_eq (hw.single hm1).1
@@ -308,7 +313,7 @@ theorem horz_bodyH : recognizeHorizontal ⟨nm, bodyH ids d t⟩ = ok (horzOf t)
           (regionNumber_eq r1 (valuesRow_out ids d t ho0))
         have hne : decide (ids.label = ids.outVal 0) = false := by simpa using hids.label_outVal hm1
         rw [hne] at e
-        have hov : t.ovals = [t.ovals[0]] := eq_singleton t.ovals ho0 (by rw [len_ovals, hm1])
+        have hov : (t.ovals d) = [(t.ovals d)[0]] := eq_singleton (t.ovals d) ho0 (by rw [len_ovals, hm1])
         have e' : (bodyOver ids t [nameRow ids t, valuesRow ids d t] nm).equalRegions
             ⟨t.inputs.length + 1, 0, t.inputs.length + 1 + t.outputs.length, 2⟩ = ok false := by
           rw [hm1]; exact e
@@ -325,8 +330,8 @@ theorem horz_bodyH : recognizeHorizontal ⟨nm, bodyH ids d t⟩ = ok (horzOf t)
           rowTexts_ok t.names ids.comp r0 (by rw [len_names])
             (fun j hj => nameRow_out_multi ids t hm1 hj)
         have hvv : (bodyOver ids t [nameRow ids t, valuesRow ids d t] nm).rowTexts (0 + 1) (t.inputs.length + 1)
-            (t.inputs.length + 1 + t.outputs.length) = ok t.ovals :=
-          rowTexts_ok t.ovals ids.outVal r1 (by rw [len_ovals])
+            (t.inputs.length + 1 + t.outputs.length) = ok (t.ovals d) :=
+          rowTexts_ok (t.ovals d) ids.outVal r1 (by rw [len_ovals])
             (fun j hj => valuesRow_out ids d t hj)
         simp [outputHeaderMulti, hc, hvv, hm1, hl]
     · -- label and names
@@ -369,8 +374,8 @@ theorem horz_bodyH : recognizeHorizontal ⟨nm, bodyH ids d t⟩ = ok (horzOf t)
         rowTexts_ok t.names ids.comp r1 (by rw [len_names])
           (fun j hj => nameRow_out_multi ids t hm1 hj)
       have hvv : (bodyOver ids t [labelRow ids t, nameRow ids t, valuesRow ids d t] nm).rowTexts (0 + 2)
-          (t.inputs.length + 1) (t.inputs.length + 1 + t.outputs.length) = ok t.ovals :=
-        rowTexts_ok t.ovals ids.outVal r2 (by rw [len_ovals])
+          (t.inputs.length + 1) (t.inputs.length + 1 + t.outputs.length) = ok (t.ovals d) :=
+        rowTexts_ok (t.ovals d) ids.outVal r2 (by rw [len_ovals])
           (fun j hj => valuesRow_out ids d t hj)
       have tl := regionText_eq r0 (labelRow_out ids t hm)
       simp only [Nat.add_zero] at tl
